@@ -2,5 +2,6 @@ pub mod c04;
 pub mod c09;
 pub mod c13;
 pub mod c14;
+pub mod c14fix;
 pub mod c15;
 pub mod c16;
